@@ -76,12 +76,20 @@ func (sf *srcFacts) constrained(depth int) (bool, string) {
 func collectSources(p *Prog, e *flowEngine, scope func(pkg string) bool) map[string][]*srcFacts {
 	out := map[string][]*srcFacts{}
 	var addSrc func(src *flowSource, depth int) *srcFacts
-	seenSrc := map[ssa.Value]map[int]*srcFacts{}
+	// keyed by (call, result index, kind): a call of the builders' own NewHint is both a hint source of its function
+	// and a call site receiving what (*builder).NewHint returns ("ret" source); the two must not shadow each other
+	// (which one came first depended on the order of the function list)
+	type srcKey struct {
+		idx  int
+		kind string
+	}
+	seenSrc := map[ssa.Value]map[srcKey]*srcFacts{}
 	addSrc = func(src *flowSource, depth int) *srcFacts {
 		if seenSrc[src.call] == nil {
-			seenSrc[src.call] = map[int]*srcFacts{}
+			seenSrc[src.call] = map[srcKey]*srcFacts{}
 		}
-		if old := seenSrc[src.call][src.idx]; old != nil {
+		sk := srcKey{src.idx, src.kind}
+		if old := seenSrc[src.call][sk]; old != nil {
 			return old
 		}
 		pk := FuncPkg(src.fn)
@@ -91,7 +99,7 @@ func collectSources(p *Prog, e *flowEngine, scope func(pkg string) bool) map[str
 		f, sites := e.FactsSites(src)
 		key := Abstract(FuncName(src.fn)) + " | " + src.Key()
 		me := &srcFacts{src: src, facts: f, sites: sites}
-		seenSrc[src.call][src.idx] = me
+		seenSrc[src.call][sk] = me
 		out[key] = append(out[key], me)
 		if depth >= 3 {
 			return me
@@ -239,16 +247,26 @@ func (sf *srcFacts) chainFacts(depth int) *fset {
 	if depth >= 3 || len(sf.children) == 0 {
 		return out
 	}
-	var inter *fset
+	// children are the same-package call sites that receive an escaping result: every call site receiving result j
+	// must constrain it (meet over call sites), while different results of the same function are different parts
+	// of the value (plus over result indices)
+	byIdx := map[int]*fset{}
+	var idxs []int
 	for _, c := range sf.children {
 		cf := c.chainFacts(depth + 1)
-		if inter == nil {
-			inter = cf
+		j := c.src.idx
+		if old, ok := byIdx[j]; ok {
+			byIdx[j] = old.meet(cf)
 		} else {
-			inter = inter.meet(cf)
+			byIdx[j] = cf
+			idxs = append(idxs, j)
 		}
 	}
-	return out.plus(inter)
+	sort.Ints(idxs)
+	for _, j := range idxs {
+		out = out.plus(byIdx[j])
+	}
+	return out
 }
 
 // refKey: hint sources are keyed by package and hint function (robust against renaming / inlining of the
@@ -316,14 +334,30 @@ func fnSites(srcs map[string][]*srcFacts) map[string]map[string]int {
 			if sf.src.kind != "hint" {
 				continue
 			}
-			top := sf.src.fn
-			for top.Parent() != nil {
-				top = top.Parent()
+			// the sites reached by this hint's outputs are attributed to the function that calls the hint and to
+			// every same-package function its outputs are returned to (so that moving the hint call and its local
+			// checks into a helper leaves the caller's count unchanged)
+			tops := map[*ssa.Function]bool{}
+			var owners func(x *srcFacts, d int)
+			owners = func(x *srcFacts, d int) {
+				top := x.src.fn
+				for top.Parent() != nil {
+					top = top.Parent()
+				}
+				tops[top] = true
+				if d < 3 {
+					for _, c := range x.children {
+						owners(c, d+1)
+					}
+				}
 			}
-			if per[top] == nil {
-				per[top] = acc{}
+			owners(sf, 0)
+			for top := range tops {
+				if per[top] == nil {
+					per[top] = acc{}
+				}
+				collect(per[top], sf, 0, map[*srcFacts]bool{})
 			}
-			collect(per[top], sf, 0, map[*srcFacts]bool{})
 		}
 	}
 	out := map[string]map[string]int{}
@@ -548,6 +582,18 @@ func RunFlow(p *Prog, r *Report, e *flowEngine, area string, scope func(pkg stri
 				miss = append(miss, q)
 			}
 		}
+		if len(miss) > 0 {
+			// field-level facts are not comparable once the function hands the whole operand to a helper (the
+			// helper's reads of the field and what is done with its results are only partly attributed); the facts
+			// of the whole operand stay enforced
+			if last := parts[len(parts)-1]; strings.Contains(last, ".") {
+				base := parts[0] + " | " + last[:strings.Index(last, ".")]
+				if passWholeKeys[base] {
+					r.Add(&Obligation{Rule: "FLOW-PARAM", Pkg: cur.pkg, Func: cur.fname, Key: last, Pos: cur.pos, OK: true, Info: true, Detail: "operand is handed on whole to a helper: field-level facts not compared (the facts of the whole operand are)"})
+					continue
+				}
+			}
+		}
 		if len(miss) == 0 {
 			r.Pass("FLOW-PARAM", cur.pkg, cur.fname, parts[len(parts)-1], cur.pos, fmt.Sprintf("operand reaches the %d reviewed sinks: %s", len(req), strings.Join(req, " ")), true)
 		} else {
@@ -762,45 +808,203 @@ func paramFacts(p *Prog, e *flowEngine, scope func(string) bool) map[string]*pfa
 			}
 			// field-level facts for struct operands whose fields this function reads directly
 			if st, ok := deref(pm.Type()).Underlying().(*types.Struct); ok && isModuleStruct(pm.Type()) && st.NumFields() <= 32 {
-				seeds := map[int]map[ssa.Value]flabel{}
-				for _, b := range fn.Blocks {
-					for _, ins := range b.Instrs {
-						switch x := ins.(type) {
-						case *ssa.FieldAddr:
-							if paramRoot(x.X) == pm {
-								if seeds[x.Field] == nil {
-									seeds[x.Field] = map[ssa.Value]flabel{}
-								}
-								seeds[x.Field][x] = lRaw
-							}
-						case *ssa.Field:
-							if paramRoot(x.X) == pm {
-								if seeds[x.Field] == nil {
-									seeds[x.Field] = map[ssa.Value]flabel{}
-								}
-								seeds[x.Field][x] = lRaw
-							}
-						}
-					}
+				if passesWhole(fn, pm) {
+					passWholeKeys[fmt.Sprintf("%s | param#%d", Abstract(FuncName(fn)), i)] = true
 				}
-				for fi, sd := range seeds {
-					loc := map[string]flabel{}
-					e.collectLocal(loc, e.forward(fn, sd, 0))
-					ffs := fsetOf(loc)
-					if !hasDirectFact(ffs) {
-						continue
-					}
-					fk := fmt.Sprintf("%s | param#%d.%s", Abstract(FuncName(fn)), i, st.Field(fi).Name())
-					if old, ok := out[fk]; ok {
-						old.f = old.f.meet(ffs)
-					} else {
-						out[fk] = &pfact{f: ffs, pkg: pk.Path(), fname: FuncName(fn), pos: p.Pos(FuncPos(fn))}
+				fieldsRead := map[int]bool{}
+				for fi := 0; fi < st.NumFields(); fi++ {
+					if ffs := fieldFactsRec(e, fn, i, fi, 0, map[string]bool{}); ffs != nil && hasDirectFact(ffs) {
+						fieldsRead[fi] = true
+						fk := fmt.Sprintf("%s | param#%d.%s", Abstract(FuncName(fn)), i, st.Field(fi).Name())
+						if old, ok := out[fk]; ok {
+							old.f = old.f.meet(ffs)
+						} else {
+							out[fk] = &pfact{f: ffs, pkg: pk.Path(), fname: FuncName(fn), pos: p.Pos(FuncPos(fn))}
+						}
 					}
 				}
 			}
 		}
 	}
 	return out
+}
+
+// passWholeKeys: "func | param#i" of struct operands that the function hands on, whole, to a module callee.
+var passWholeKeys = map[string]bool{}
+
+func passesWhole(fn *ssa.Function, pm *ssa.Parameter) bool {
+	for _, f := range funcsWithClosures(fn) {
+		for _, b := range f.Blocks {
+			for _, ins := range b.Instrs {
+				c, ok := ins.(*ssa.Call)
+				if !ok || c.Call.IsInvoke() {
+					continue
+				}
+				cal := calleeOf(c)
+				if cal == nil || cal.Blocks == nil || FuncPkg(cal) == nil || !inModule(FuncPkg(cal).Path()) {
+					continue
+				}
+				for _, a := range c.Call.Args {
+					if paramRootFV(a) == pm {
+						return true
+					}
+				}
+			}
+		}
+	}
+	return false
+}
+
+// fieldFactsRec: sink facts of field fi of the struct operand passed as parameter pi of fn: what the function does
+// with the field where it reads it directly, plus — when the whole operand is handed on to a module callee — what
+// the callee does with the same field and, through the callee's results, what fn goes on to do with values derived
+// from it (so that moving code that reads the operand's fields into a helper leaves the facts unchanged).
+type fieldRes struct {
+	f    *fset
+	rets map[int]flabel
+}
+
+func fieldFactsRec(e *flowEngine, fn *ssa.Function, pi, fi int, depth int, seen map[string]bool) *fset {
+	if r := fieldFactsRes(e, fn, pi, fi, depth, seen); r != nil {
+		return r.f
+	}
+	return nil
+}
+
+func fieldFactsRes(e *flowEngine, fn *ssa.Function, pi, fi int, depth int, seen map[string]bool) *fieldRes {
+	if fn.Blocks == nil || pi >= len(fn.Params) || depth > 4 {
+		return nil
+	}
+	k := fmt.Sprintf("%p/%d/%d", fn, pi, fi)
+	if seen[k] {
+		return nil
+	}
+	seen[k] = true
+	pm := fn.Params[pi]
+	st, ok := deref(pm.Type()).Underlying().(*types.Struct)
+	if !ok || fi >= st.NumFields() {
+		return nil
+	}
+	perFn := map[*ssa.Function]map[ssa.Value]flabel{}
+	seed := func(v ssa.Value, l flabel) {
+		f := v.(ssa.Instruction).Parent()
+		if perFn[f] == nil {
+			perFn[f] = map[ssa.Value]flabel{}
+		}
+		if l > perFn[f][v] {
+			perFn[f][v] = l
+		}
+	}
+	var total *fset
+	add := func(x *fset) {
+		if x == nil {
+			return
+		}
+		if total == nil {
+			total = x
+		} else {
+			total = total.plus(x)
+		}
+	}
+	for _, f := range funcsWithClosures(fn) {
+		for _, b := range f.Blocks {
+			for _, ins := range b.Instrs {
+				switch x := ins.(type) {
+				case *ssa.FieldAddr:
+					if x.Field == fi && paramRootFV(x.X) == pm {
+						seed(x, lRaw)
+					}
+				case *ssa.Field:
+					if x.Field == fi && paramRootFV(x.X) == pm {
+						seed(x, lRaw)
+					}
+				case *ssa.Call:
+					if x.Call.IsInvoke() {
+						continue
+					}
+					cal := calleeOf(x)
+					if cal == nil || cal.Blocks == nil || FuncPkg(cal) == nil || !inModule(FuncPkg(cal).Path()) {
+						continue
+					}
+					for j, a := range x.Call.Args {
+						if paramRootFV(a) != pm || j >= len(cal.Params) {
+							continue
+						}
+						if _, isStruct := deref(cal.Params[j].Type()).Underlying().(*types.Struct); !isStruct {
+							continue
+						}
+						sub := fieldFactsRes(e, cal, j, fi, depth+1, seen)
+						if sub == nil {
+							continue
+						}
+						add(sub.f)
+						// what the callee returns is derived from the field: continue in this function
+						for rj, l := range sub.rets {
+							if l == lNone {
+								continue
+							}
+							if _, isTuple := x.Type().(*types.Tuple); isTuple {
+								for _, ref := range *x.Referrers() {
+									if ex, ok := ref.(*ssa.Extract); ok && ex.Index == rj {
+										seed(ex, lDerived)
+									}
+								}
+							} else if rj == 0 {
+								seed(x, lDerived)
+							}
+						}
+					}
+				}
+			}
+		}
+	}
+	res := &fieldRes{rets: map[int]flabel{}}
+	var fs []*ssa.Function
+	for f := range perFn {
+		fs = append(fs, f)
+	}
+	sort.Slice(fs, func(i, j int) bool { return fs[i].Pos() < fs[j].Pos() })
+	for _, f := range fs {
+		sum := e.forward(f, perFn[f], 0)
+		loc := map[string]flabel{}
+		e.collectLocal(loc, sum)
+		add(fsetOf(loc))
+		if f == fn {
+			for j, l := range sum.rets {
+				res.rets[j] = l
+			}
+		}
+	}
+	res.f = total
+	if total == nil && len(res.rets) == 0 {
+		return nil
+	}
+	if res.f == nil {
+		res.f = newFset()
+	}
+	return res
+}
+
+// paramRootFV: like paramRoot, also through a closure's free variable bound to the parameter.
+func paramRootFV(v ssa.Value) *ssa.Parameter {
+	if pm := paramRoot(v); pm != nil {
+		return pm
+	}
+	for d := 0; d < 4 && v != nil; d++ {
+		switch x := v.(type) {
+		case *ssa.UnOp:
+			if x.Op == token.MUL {
+				v = x.X
+				continue
+			}
+		case *ssa.FreeVar:
+			if b := closureBinding(x); b != nil {
+				return paramRoot(b)
+			}
+		}
+		return nil
+	}
+	return nil
 }
 
 // emitFlow prints the reference stanza of an area (developer mode).
@@ -855,8 +1059,21 @@ func init() {
 			if fnPat != "" && fnPat != a {
 				continue
 			}
-			all[a] = emitFlow(p, e, pkgScope(flowAreas[a]...))
+			// exactly the query sequence of a property run (fresh engine, one collectSources, then parameter
+			// facts): summaries cut at recursion cycles depend on what was memoised before
+			e = newFlowEngine(p, cg)
+			srcs := collectSources(p, e, pkgScope(flowAreas[a]...))
+			agg, _ := aggregate(srcs)
+			all[a] = map[string][]string{}
+			for k, f := range agg {
+				all[a][k] = factList(f)
+			}
 			allF[a] = map[string][]string{}
+			for k, m := range fnSites(srcs) {
+				if sl := siteList(m); len(sl) > 0 {
+					allF[a][k] = sl
+				}
+			}
 			allR[a] = map[string]int{}
 			allM[a] = map[string][]string{}
 			mm, _ := fnMust(p, pkgScope(flowAreas[a]...))
@@ -869,11 +1086,6 @@ func init() {
 				rs, _ := relaxSites(p, refNow, pkgScope(flowAreas[a]...))
 				for k, v := range rs {
 					allR[a][k] = len(v)
-				}
-			}
-			for k, m := range fnSites(collectSources(p, e, pkgScope(flowAreas[a]...))) {
-				if sl := siteList(m); len(sl) > 0 {
-					allF[a][k] = sl
 				}
 			}
 			allP[a] = map[string][]string{}
